@@ -151,7 +151,8 @@ pub fn error_shape_ok(body: &[u8]) -> bool {
 }
 
 /// which `for_bad_request` site: the fixed head of the message (numbering of
-/// Extract.xerr_class); 0 when there is none
+/// Extract.xerr_class); 255 = not recognised (the judge then compares the
+/// status only: wording is no property)
 pub fn error_class(body: &[u8]) -> u8 {
     let msg = serde_json::from_slice::<Value>(body)
         .ok()
@@ -169,7 +170,7 @@ pub fn error_class(body: &[u8]) -> u8 {
         ("missing boundary in content-type header", 10),
         ("invalid path encoding", 11),
     ];
-    HEADS.iter().find(|(h, _)| msg.starts_with(h)).map(|(_, c)| *c).unwrap_or(0)
+    HEADS.iter().find(|(h, _)| msg.starts_with(h)).map(|(_, c)| *c).unwrap_or(255)
 }
 
 pub fn g_ri(method: &str, uri: &[u8], marker: &Option<String>, port: u16) -> String {
